@@ -507,6 +507,25 @@ theorem evc_cmp_of (C : Cx) (o : CmpOp) (s1 s2 : Sql) (a b : Val) (h1 : C.ev s1 
     C.evc (.cmp o s1 s2) = cmpVals o a b := by
   simp only [Cx.ev] at h1 h2; simp only [Cx.evc, evalCond_cmp, h1, h2]
 
+def cmpOpt (o : CmpOp) : Option Val → Option Val → Option K
+  | some x, some y => cmpVals o x y
+  | _, _ => none
+
+theorem evc_cmp_opt (C : Cx) (o : CmpOp) (s1 s2 : Sql) : C.evc (.cmp o s1 s2) = cmpOpt o (C.ev s1) (C.ev s2) := by
+  simp only [Cx.evc, Cx.ev, evalCond_cmp, cmpOpt]
+
+def toIntV : Val → Option Val
+  | .null => some .null
+  | .int i => some (.int i)
+  | .bool b => some (.int (boolInt b))
+  | .str _ => none
+
+theorem ev_toInt (C : Cx) (s : Sql) : C.ev (.toInt s) = (C.ev s).bind toIntV := by
+  simp only [Cx.ev, eval]
+  cases eval C.L C.d (senv C.d C.env) s with
+  | none => rfl
+  | some a => cases a <;> rfl
+
 theorem ev_toInt_of (C : Cx) (s : Sql) (a : Val) (h : C.ev s = some a) :
     C.ev (.toInt s) = match a with
       | .null => some .null
@@ -514,6 +533,16 @@ theorem ev_toInt_of (C : Cx) (s : Sql) (a : Val) (h : C.ev s = some a) :
       | .bool b => some (.int (boolInt b))
       | .str _ => none := by
   simp only [Cx.ev] at h; simp only [Cx.ev, eval, h]; cases a <;> rfl
+
+theorem coerceCmp_nopg (d : Dialect) (h : d.isPg = false) (t1 t2 : MTy) (s1 s2 : Sql) : coerceCmp d t1 t2 s1 s2 = (s1, s2) := by
+  simp [coerceCmp, h]
+theorem coerceCmp_ii (d : Dialect) (s1 s2 : Sql) : coerceCmp d .int .int s1 s2 = (s1, s2) := by simp [coerceCmp]
+theorem coerceCmp_bb (d : Dialect) (s1 s2 : Sql) : coerceCmp d .bool .bool s1 s2 = (s1, s2) := by simp [coerceCmp]
+theorem coerceCmp_ss (d : Dialect) (s1 s2 : Sql) : coerceCmp d .str .str s1 s2 = (s1, s2) := by simp [coerceCmp]
+theorem coerceCmp_ib (d : Dialect) (h : d.isPg = true) (s1 s2 : Sql) : coerceCmp d .int .bool s1 s2 = (s1, .toInt s2) := by
+  simp [coerceCmp, h]
+theorem coerceCmp_bi (d : Dialect) (h : d.isPg = true) (s1 s2 : Sql) : coerceCmp d .bool .int s1 s2 = (.toInt s1, s2) := by
+  simp [coerceCmp, h]
 
 theorem cmp_vals_ok (C : Cx) (o : CmpOp) {t1 t2 : Ty} {s1 s2 : Sql} {v1 v2 : Option Scalar}
     (h1 : C.ev s1 = some (encV C.d v1)) (h2 : C.ev s2 = some (encV C.d v2))
@@ -527,11 +556,72 @@ theorem cmp_vals_ok (C : Cx) (o : CmpOp) {t1 t2 : Ty} {s1 s2 : Sql} {v1 v2 : Opt
   rcases v1 with _ | x <;> rcases v2 with _ | y <;> (try cases x) <;> (try cases y) <;>
   (try (have hx := ht1 _ rfl; simp [hasTy] at hx)) <;> (try (have hy := ht2 _ rfl; simp [hasTy] at hy)) <;>
   cases hd : C.d.isPg <;>
-  simp only [coerceCmp, MTy.ofTy, hd, Bool.false_and, Bool.true_and, Bool.and_self, Bool.or_self, Bool.and_false, Bool.false_or, Bool.or_false,
-    beq_self_eq_true, if_true, if_false, reduceCtorEq, decide_false, decide_true, Bool.false_eq_true, beq_iff_eq] <;>
-  (first
-    | (rw [evc_cmp_of C o _ _ _ _ h1 h2]; simp [encV, encS, hd, cmpVals, pyCmp, boolInt])
-    | (rw [evc_cmp_of C o _ _ _ _ (by rw [ev_toInt_of C _ _ h1]) h2]; simp [encV, encS, hd, cmpVals, pyCmp, boolInt])
-    | (rw [evc_cmp_of C o _ _ _ _ h1 (by rw [ev_toInt_of C _ _ h2])]; simp [encV, encS, hd, cmpVals, pyCmp, boolInt]))
+  simp (disch := exact hd) only [MTy.ofTy, coerceCmp_nopg, coerceCmp_ii, coerceCmp_bb, coerceCmp_ss, coerceCmp_ib, coerceCmp_bi] <;>
+  simp [evc_cmp_opt, ev_toInt, h1, h2, cmpOpt, toIntV, encV, encS, hd, cmpVals, pyCmp, boolInt]
+
+
+/-! ### `x in (c1, …)`: `ListMonad.contains` -/
+
+theorem evalVals_lits (L : LikeFn) (d : Dialect) (env : SEnv) : (items : List Lit) →
+    evalVals L d env (litsSql items) = some (items.map (litVal d))
+  | [] => by simp [litsSql, evalVals]
+  | it :: rest => by simp [litsSql, evalVals, eval, evalVals_lits L d env rest]
+
+def pyItem (v : Option Scalar) (it : Lit) : K :=
+  match v, litScalar it with
+  | some x, some y => pyCmp .eq x y
+  | _, _ => .unk
+
+theorem cmp_item (d : Dialect) {t : Ty} {v : Option Scalar} (ht : ∀ x, v = some x → hasTy t x) (it : Lit)
+    (h : MTy.ofTy t = litTy it) : cmpVals .eq (encV d v) (litVal d it) = some (pyItem v it) := by
+  cases t <;> cases it <;> simp [MTy.ofTy, litTy] at h <;>
+  rcases v with _ | x <;> (try cases x) <;> (try (have hx := ht _ rfl; simp [hasTy] at hx)) <;>
+  cases hd : d.isPg <;>
+  simp [encV, encS, litVal, hd, cmpVals, pyItem, litScalar, pyCmp, boolInt]
+  all_goals (rename_i a b; cases a <;> cases b <;> simp [boolInt, cmpInt])
+
+theorem mapM_items (d : Dialect) {t : Ty} {v : Option Scalar} (ht : ∀ x, v = some x → hasTy t x) : (items : List Lit) →
+    (∀ it ∈ items, MTy.ofTy t = litTy it) →
+    (items.map (litVal d)).mapM (cmpVals .eq (encV d v)) = some (items.map (pyItem v))
+  | [], _ => by simp
+  | it :: rest, h => by
+    have h1 := cmp_item d ht it (h it (by simp))
+    have h2 := mapM_items d ht rest (fun i hi => h i (by simp [hi]))
+    simp [List.mapM_cons, h1, h2]
+
+theorem inList_ok (C : Cx) (ng : Bool) {t : Ty} {sx : Sql} {v : Option Scalar}
+    (h : C.ev sx = some (encV C.d v)) (ht : ∀ x, v = some x → hasTy t x) (items : List Lit)
+    (hit : ∀ it ∈ items, MTy.ofTy t = litTy it) :
+    C.evc (.inList ng sx (litsSql items)) = some (if ng then (pyInList v items).not else pyInList v items) := by
+  simp only [Cx.ev] at h
+  simp only [Cx.evc, evalCond, eval, h, evalVals_lits, mapM_items C.d ht items hit]
+  cases ng <;> simp [pyInList] <;> rfl
+
+
+/-! ### the translation invariant -/
+
+/-- what is known about the monad of an expression of the fragment -/
+def Good (C : Cx) (e : Expr) (m : Monad) : Prop :=
+  MonadOK C e m ∧
+    (if valueSorted e then ∃ c t n s, m = .val c t n s ∧ (c = .attr → isAttr e = true) else m.isCond = true)
+
+theorem Good.val {C : Cx} {e : Expr} {m : Monad} (h : Good C e m) (hs : valueSorted e = true) :
+    ∃ c t n s, m = .val c t n s ∧ (c = .attr → isAttr e = true) ∧ ValOK C e t n s := by
+  obtain ⟨h1, h2⟩ := h
+  simp only [hs, if_true] at h2
+  obtain ⟨c, t, n, s, rfl, hc⟩ := h2
+  exact ⟨c, t, n, s, rfl, hc, h1⟩
+
+theorem Good.condOf {C : Cx} {e : Expr} {m : Monad} (h : Good C e m) : CondOK C e (condOf C.d m).getsql ∧ m ≠ .noneM := by
+  obtain ⟨h1, h2⟩ := h
+  refine ⟨condOf_ok h1 ?_, ?_⟩
+  · intro c t n s hm
+    by_cases hs : valueSorted e = true
+    · exact hs
+    · simp only [hs] at h2; subst hm; simp [Monad.isCond] at h2
+  · intro hm; subst hm; simp [MonadOK] at h1
+
+theorem trTy_of_ok {sch : Schema} {d : Dialect} {e : Expr} {m : Monad} (h : tr sch d e = .ok m) : trTy sch d e = m.ty := by
+  simp [trTy, h]
 
 end PonyVerif.Model.Q
